@@ -121,8 +121,8 @@ Lemma sqlite_abs_sign_inf_refuted :
 Proof. split.
   - exists [SNInf], SPInf, SNull. repeat split; reflexivity.
   - exists [SPInf], (SNum 1), SNull. repeat split; reflexivity. Qed.
-Lemma pg_is_nan_of_nan_refuted :
-  exists args r r', spec_method mf mf2 "is_nan" args = Some r /\ sql_eval mf mf2 shipped DPg "is_nan" [false] args = Some r' /\ differs r' r.
+Lemma pg_is_nan_of_nan_refuted vr :
+  exists args r r', spec_method mf mf2 "is_nan" args = Some r /\ sql_eval mf mf2 vr DPg "is_nan" [false] args = Some r' /\ differs r' r.
 Proof. exists [SNaN], (SBool true), (SBool false). repeat split; reflexivity. Qed.
 Lemma polars_maxmin_refuted :
   (exists args r r', spec_method mf mf2 "maximum" args = Some r /\ pl_eval mf mf2 "maximum" args = Some r' /\ differs r' r) /\
